@@ -6,7 +6,7 @@ from qv.astvc import VC, AND, OR, NOT, ITE, IMPLIES, SymReal, SymNpReal, SymInt
 
 LEVEL = "proof"
 MANIFEST = {
-    "engine": "qv-astvc",
+    "engine": "qv-astvc+qv-gen",
     "category": "proof",
     "technique": "contracts on _update_statistics (real arithmetic, NaN-aware), ObservableBase.statistics / System.statistics (loop invariants with ghost chain and accumulator tokens), statistics_from_samples, ObservableBase.sample; sources recompiled in a sandbox with Hoare cut points; obligations discharged by z3 (nlsat for the merge identity)",
     "text": "_update_statistics is proved to map the mean / unbiased variance / count of two chunks (given through their sums S, Q) to those of their concatenation for all real values and all lengths (including an empty accumulator and single-sample chunks whose variance is NaN), without ZeroDivisionError. The loops of ObservableBase.statistics and System.statistics are cut with an invariant over ghost state: after i draws the running triple is the accumulator token produced by merging chunks 0..i-1 in order, the count is i*num_chains, draw i used k = burn_in if i == 0 else steps with overwrite=True on the chain object returned by draw i-1 (the caller's chains are cloned unless overwrite was requested). Post: num_samples = ceil(ns/nc)*nc >= ns, std_error = sqrt(variance/num_samples); with several observables each gets exactly the merge sequence it would get alone on the same chain objects.",
@@ -17,7 +17,7 @@ TRUSTED = ["torch.var_mean returns the mean and the unbiased variance (NaN for a
 
 
 def configs(tier):
-    return [{"part": "merge"}, {"part": "statistics"}, {"part": "system"}, {"part": "from_samples"}]
+    return [{"part": "merge"}, {"part": "statistics"}, {"part": "system"}, {"part": "from_samples"}, {"generic": "every shape"}]
 
 
 def canaries(tier):
@@ -25,6 +25,9 @@ def canaries(tier):
 
 
 def run_config(ctx, cfg):
+    if cfg.get("generic"):
+        from contracts import gsets
+        return gsets.run(ctx, "C13")
     return {"merge": _merge, "statistics": _statistics, "system": _system, "from_samples": _from_samples}[cfg["part"]](ctx, cfg)
 
 
@@ -391,14 +394,12 @@ def _from_samples(ctx, cfg):
     ctx.under_contract("ObservableBase.statistics_from_samples")
 
     class Obs(ObservableBase):
-        def __init__(self, vals):
-            self.vals = vals
-
-        def apply(self, nn_state, samples):
-            return self.vals
+        def apply(self, nn_state, samples):       # the value of a row is its single entry
+            return samples[:, 0]
     for n in (2, 3, 5):
-        x = st.fresh((n,), "x")
-        r = Obs(x).statistics_from_samples(None, None)
+        x2 = st.fresh((n, 1), "x")
+        x = x2[:, 0]
+        r = Obs().statistics_from_samples(None, x2)
         S = sum(x._arr, alg.ZERO)
         Q = sum((v * v for v in x._arr), alg.ZERO)
         mean = r["mean"].p if isinstance(r["mean"], st.SymFloat) else alg.to_P(r["mean"])
@@ -417,5 +418,8 @@ def _from_samples(ctx, cfg):
 
 
 def replay(o):
+    if o["cfg"].get("generic"):
+        from contracts import gsets
+        return gsets.replay("C13", o)
     from drivers import C13 as D
     return D.replay(o["cfg"], (o.get("witness") or {}).get("model") or {}, o.get("short") or "")
